@@ -9,6 +9,9 @@
 #include "post.h"
 #define MAXN 300     /* the key arrays handed in have n_keys entries; n_keys itself is unconstrained below this */
 
+/* ghost state read by the loop contract of the scalar loop (hooks/C16_whitelist_loops.diff); fixed here */
+size_t verif_wl_gi; int verif_wl_bad; secp256k1_scalar verif_wl_sx;
+
 void h_wl_verify(void) {
     secp256k1_context ctx;
     INPUT(secp256k1_whitelist_signature, sig);
@@ -19,6 +22,15 @@ void h_wl_verify(void) {
     __CPROVER_assume(online != NULL && offline != NULL);
     verif_ctx_init(&ctx);
     g_el_i = gi; g_el_k = gk; g_bv_n = 0; g_ck_n = 0;
+#ifdef EL_BOUND
+    __CPROVER_assume(sig.n_keys <= EL_BOUND);     /* bounded stand-in for trees without the loop-contract hook */
+#endif
+    verif_wl_gi = gi; verif_wl_bad = 0;
+    if (gi < sig.n_keys && sig.n_keys <= SECP256K1_WHITELIST_MAX_N_KEYS) {
+        int ov = 0;
+        secp256k1_scalar_set_b32(&verif_wl_sx, &sig.data[32 * (gi + 1)], &ov);
+        verif_wl_bad = ov || secp256k1_scalar_is_zero(&verif_wl_sx);
+    }
     g_bv_e0_expect = &sig.data[0]; g_ck_online_expect = online; g_ck_offline_expect = offline; g_ck_sub_expect = &sub;
     if (nullsel == 0) {
         ret = secp256k1_whitelist_verify(&ctx, &sig, online, offline, n_keys, &sub);
@@ -31,15 +43,16 @@ void h_wl_verify(void) {
 #ifndef VERIF_NATIVE
             if (gi < n_keys) {
                 wide sv = be256(&sig.data[32 * (gi + 1)]);
+                __CPROVER_assert(verif_wl_bad == (sv == 0 || sv >= N_()), "C16 whitelist_verify: (harness) ghost flag equals the specification of a bad scalar");
                 if (sv == 0 || sv >= N_())
                     __CPROVER_assert(ret == 0 && g_bv_n == 0, "C16 whitelist_verify: any scalar that is zero or >= n rejects, and the ring check is never consulted");
-                if (g_bv_n == 1) __CPROVER_assert(sval(&g_bv_s_i) == sv && GEJ_EQ(g_bv_pub_i, g_ck_key_i), "C16 whitelist_verify: ring position i is checked with scalar i of the signature and computed key i");
+                if (g_bv_n == 1) __CPROVER_assert(sval(&g_bv_s_i) == sv && g_bv_pub_x0 == g_ck_key_x0, "C16 whitelist_verify: ring position i is checked with scalar i of the signature and computed key i");
             }
 #endif
             if (g_ck_n >= 1) __CPROVER_assert(g_ck_n == 1 && g_ck_nkeys == (int)n_keys && g_ck_args_match, "C16 whitelist_verify: keys and message computed once from exactly the caller's key lists and whitelisted key");
             if (g_ck_n == 1 && g_ck_ret == 0) __CPROVER_assert(ret == 0 && g_bv_n == 0, "C16 whitelist_verify: key computation failure rejects");
             if (g_bv_n >= 1) {
-                __CPROVER_assert(g_bv_n == 1 && g_ck_n == 1 && g_bv_nrings == 1 && g_bv_rsize0 == n_keys && g_bv_mlen == 32 && g_bv_evalues_null && g_bv_e0_match, "C16 whitelist_verify: one ring of n_keys, e0 = first 32 signature bytes, 32-byte message");
+                __CPROVER_assert(g_bv_n == 1 && g_ck_n == 1 && g_bv_nrings == 1 && g_bv_rsize0 == n_keys && g_bv_mlen == 32 && g_bv_evalues_null && g_bv_e0_match && g_bv_pub_obj == g_ck_keys_obj && g_bv_pub_off == g_ck_keys_off, "C16 whitelist_verify: one ring of n_keys over the computed key array, e0 = first 32 signature bytes, 32-byte message");
                 if (gk < 32) __CPROVER_assert(g_bv_m_k == g_ck_msg_k, "C16 whitelist_verify: the ring message is the computed key-list commitment");
                 __CPROVER_assert(ret == g_bv_ret, "C16 whitelist_verify: the result is the Borromean verdict");
             }
